@@ -80,7 +80,8 @@ def goodOp : TOp → Bool
   | .getitem (.tuple l) => l.all noEllMask
   | .splitL _ d => dim0 d
   | .splitWS _ d => dim0 d
-  | .narrowM d s _ => decide (0 ≤ d) && decide (0 ≤ s)
+  | .narrowM _ s _ => decide (0 ≤ s)
+  | .append => true
   | .cat _ d => dim0 d
   | .split _ d => dim0 d
   | .tsplitL _ d => dim0 d
